@@ -576,6 +576,17 @@ class Engine(ExprMixin, CallMixin, BuiltinMixin, VerifyMixin):
         return outs
 
     def st_Assert(self, s, st):
+        if self.ghost_depth > 0:
+            # ghost assertion: a proof obligation at this program point (specification expression)
+            text = ast.unparse(s.test)
+            label = s.msg.value if (s.msg is not None and isinstance(s.msg, ast.Constant)) else str(abs(hash(text)) % 100000)
+            self.spec_depth += 1
+            try:
+                g = truthy(self.ev1(s.test, st))
+            finally:
+                self.spec_depth -= 1
+            self.oblige(st, "ghost-assert", label, text, g, None)
+            return [Outcome("normal", st.copy().assume(g))]
         outs = []
         for st1, c in self.ev_cond(s.test, st):
             a, b = self.fork(st1, c, s.lineno, "assert")
